@@ -163,6 +163,14 @@ def prop_clauses(sh, case):
         residual = interpolate.compute_residual(t.postings)
         if not residual.is_small(interpolate.infer_tolerances(t.postings, options)):
             fails.append(('unbalanced-transaction', f'FROM {clause}: {t.date} {t.narration!r} residual {residual}'))
+    # with CLOSE the conversions entry makes the whole result net to zero at cost (the difference sits on Equity)
+    if case['close'] is not None:
+        total = inventory.Inventory()
+        for x in rows:
+            total.add_amount(convert.get_cost(x[5]))
+        if not total.is_small(interpolate.infer_tolerances([p for t in txns.values() for p in t.postings], options)) \
+                and not total.is_empty():
+            fails.append(('close-does-not-net-to-zero', f'FROM {clause}: all returned postings at cost sum to {total}'))
     # filter: same clauses with a FROM expression == the expression applied to the rows
     if case['filter'] is not None:
         rf = harness.engine(conn, select_ast(case, True))
